@@ -46,6 +46,23 @@ def CollectOut.results (buf : Nat) : CollectOut → List Res
   | .pending none => []
   | .complete _ => [.deleteCollected buf]
 
+/-- history of a collecting step that has **one invocation in flight at a time**: every
+invocation's snapshot is the live buffer, and the reducer applies its results before the next
+one starts (`returned` = the lists handed to the step body, `dropped` = surplus events of an
+already satisfied type, which `collect_events` discards by design) -/
+structure CollectHist where
+  buffer : List Ev := []
+  returned : List (List Ev) := []
+  dropped : List Ev := []
+deriving Repr, DecidableEq
+
+def collectRound (expected : List Nat) (h : CollectHist) (ev : Ev) : CollectHist :=
+  match collectEvents expected 0 h.buffer ev with
+  | .complete evs => { h with buffer := [], returned := h.returned ++ [evs] }
+  | .pending (some _) => { h with buffer := h.buffer ++ [ev] }
+  | .pending none => { h with dropped := h.dropped ++ [ev] }
+  | .empty => h
+
 inductive WaitOut
   | timeout            -- raises `asyncio.TimeoutError` (after appending `DeleteWaiter`)
   | waiting (add : Res) -- raises `WaitingForEvent(AddWaiter …)`
